@@ -186,6 +186,34 @@ if len(rows) != 2:
          f"dump pages 'Foo' and 'Main:Foo' (both ns 0) are stored as {rows}", {"titles": ["Foo", "Main:Foo"], "ns": 0},
          "merged:Main-prefix")
 ctx.db_conn.close()
+# a dump of a non-English wiki: pages and the default helper templates are stored under the LOCAL namespace names
+for lang in (["de", "fr"] if tier == "quick" else ["de", "fr", "ru", "es", "zh", "pl", "fi"]):
+    with quiet_stdout():
+        cl = Wtp(db_path=os.path.join(TMP, f"l_{lang}.sqlite"), quiet=True, lang_code=lang)
+    try:
+        tns = cl.NAMESPACE_DATA["Template"]["id"]
+        local = cl.LOCAL_NS_NAME_BY_ID[tns]
+        lpages = [{"title": "Seite", "ns": 0, "redirect": None, "model": "wikitext", "body": "text"},
+                  {"title": f"{local}:Bsp", "ns": tns, "redirect": None, "model": "wikitext", "body": "b<noinclude>d</noinclude>"},
+                  {"title": f"{local}:((", "ns": tns, "redirect": None, "model": "wikitext", "body": "own lbrace"}]
+        lpath = os.path.join(TMP, f"l_{lang}.xml.bz2")
+        make_dump(lpages, lpath)
+        with quiet_stdout():
+            parse_dump_xml(cl, lpath, {0, tns})
+            add_default_templates(cl)
+        got = {(p.title, p.namespace_id): (p.body, p.redirect_to, p.model) for p in cl.get_all_pages()}
+        want = {("Seite", 0): ("text", None, "wikitext"), (f"{local}:Bsp", tns): ("b", None, "wikitext"),
+                (f"{local}:((", tns): ("own lbrace", None, "wikitext")}
+        for nm, body in {"!": "|", "=": "=", "))": "&rbrace;&rbrace;"}.items():
+            want[(f"{local}:{nm}", tns)] = (body, None, "wikitext")
+        evaluations += 1
+        if got != want:
+            fail("dumpparser:ingest#store-equals-spec", f"lang_code={lang!r}: lost {sorted(set(want) - set(got))[:4]} extra "
+                 f"{sorted(set(got) - set(want))[:4]}", {"lang_code": lang, "pages": lpages}, "lost" if set(want) - set(got) else "extra")
+    except Exception as ex:
+        fail("dumpparser:ingest#no-exception", f"lang_code={lang!r}: {type(ex).__name__}: {ex}", {"lang_code": lang}, type(ex).__name__)
+    finally:
+        cl.db_conn.close()
 shutil.rmtree(TMP, ignore_errors=True)
 # F: every shipped namespaces.json gives each namespace id and each name once (ingestion stores a page under the local
 # name of its namespace id: a duplicated id would file pages under another namespace's name)
